@@ -3,7 +3,7 @@
 # usage: tools/seed_regress.sh [name...]      expected: rc=1 for every line (C02-b is judged by C01 and C08)
 W=${VERIF_SCRATCH:-/tmp/mw}
 [ -d $W ] || git -C /repo worktree add -q --detach $W HEAD
-names="$@"; [ -z "$names" ] && names=$(ls /verif/seeded | grep -v INDEX)
+names="$@"; [ -z "$names" ] && names=$(ls /verif/seeded | grep -v -e INDEX -e benign)
 fail=0
 for n in $names; do
   d=/verif/seeded/$n
@@ -14,7 +14,8 @@ for n in $names; do
     (cd /verif && VERIF_REPO=$W python3 check.py $c --tier quick > /tmp/seedreg_$n_$c.log 2>&1); rc=$?
     keys=$(grep -E "^  key=" /tmp/seedreg_$n_$c.log | sed 's/^  key=//' | cut -d' ' -f1 | head -2 | tr '\n' ' ')
     echo "$n $c rc=$rc $keys"
-    [ $rc -ne 1 ] && fail=1
+    want=1; [ "$n" = "C06-d" ] && want=0      # C06-d is outside the stated domain (see its meta.json): silence expected
+    [ $rc -ne $want ] && { fail=1; echo "  UNEXPECTED: $n $c rc=$rc (expected $want)"; }
   done
 done
 (cd $W && git checkout -q -- . && git clean -fdq)
